@@ -91,7 +91,10 @@ impl Prop for C17 {
             1 => {
                 let vs = vars.clone();
                 let mut leaf = move |t: &mut Tape| -> Primary {
-                    match t.pick(5) {
+                    match t.pick(7) {
+                        // a pop is unknown whatever it pops, also a literal (a runtime error when executed)
+                        5 => Primary::Pop(Box::new(Primary::Lit(Lit::Num(t.pick(9) as f64)))),
+                        6 => Primary::Pop(Box::new(Primary::Lit(Lit::Str("abc".into())))),
                         0 => pvar(&vs[t.pick(3)]),
                         1 => Primary::Ident(Ident::Pronoun),
                         2 => Primary::Subscript(Box::new(pvar(&vs[3])), Box::new(Primary::Lit(Lit::Num(t.pick(3) as f64)))),
